@@ -173,6 +173,11 @@ func runC13(c *mon.Ctx) {
 		cs.Desc("keys=%s want=%s alg=%q canon=%s kind=%s classes=%v reuse=%v", kc, ksp.WantSign, alg.URI, cn.Name, kind, o.Classes, args.Reuse)
 		var xml string
 		var err error
+		if r.IntN(5) == 0 {
+			if ctx := sp.SigningContext(); ctx != nil {
+				ctx.Prefix = pick(r, []string{"dsig", "xmldsig", "", "sig"}) // the application's choice of prefix for the signature elements
+			}
+		}
 		pv, stack := mon.Guard(func() { xml, err = buildSigned(sp, kind, args) })
 		if pv != nil {
 			cs.Violation("panic", "builder panicked: %v\n%s", pv, trunc(stack, 1500))
